@@ -1,10 +1,17 @@
 """C06 check configuration (see lib/props.py for the field meanings)."""
 
 PROP = {
-    "pkg": "internal/filtering",
-    "files": ["filtering/c06_model_test.go", "filtering/c06_rewrites_test.go"],
+    "parts": [
+        {"name": "table", "pkg": "internal/filtering",
+         "files": ["filtering/c06_model_test.go", "filtering/c06_rewrites_test.go"],
+         "tests": [("TestVFC06Table", (10000, 30000)), ("TestVFC06Cycles", (2000, 8000))],
+         "plain": ["TestVFC06DocExamples", "TestVFC06RegressWildcardOtherTypeException"]},
+        {"name": "response", "pkg": "internal/dnsforward",
+         "files": ["dnsforward/common_world_test.go", "dnsforward/c01_test.go", "dnsforward/c06_response_test.go"],
+         "tests": [("TestVFC06Response", (800, 3000))],
+         "plain": ["TestVFC06RegressCNAMETargetWithoutValue"]},
+    ],
     "level": "exploration",
-    "claimed": False,
     "technique": "property-based testing (rapid) against a reference resolver written from AGHTechDoc; "
                  "metamorphic order-independence check; watchdog termination oracle",
     "level_text": "Generated rewrite tables (0-12 entries: exact and 1-3 level wildcard patterns, A/AAAA/CNAME "
@@ -14,18 +21,14 @@ PROP = {
                   "DNSFilter.CheckHost in up to three orders of the table (built from the configuration and "
                   "through POST /control/rewrite/add) and compared with a reference resolver: exact equality "
                   "where the table is unambiguous for the question, the stated validity predicates otherwise; "
-                  "every order must give the same result; each call runs under a 10 s (CPU time of the process) watchdog and a panic trap. "
+                  "every order must give the same result; each call runs under a watchdog (10 s of CPU time of the "
+                  "process) and a panic trap. "
                   "Exploration: no absence claim.",
     "level_note": "Only the table semantics at filtering.CheckHost are decided here; response assembly "
                   "(CNAME record first, question restored, no upstream call for empty answers) is checked in "
                   "dnsforward. CheckHost cannot tell 'CNAME to a name the table does not know' from 'CNAME to a "
                   "name the table knows without a value for the type' (both: canonical name, no addresses). "
                   "CNAME answers written in upper case and trailing-dot names are outside the generated domain.",
-    "tests": [
-        ("TestVFC06Table", (10000, 30000)),
-        ("TestVFC06Cycles", (2000, 8000)),
-    ],
-    "plain": ["TestVFC06DocExamples", "TestVFC06RegressWildcardOtherTypeException"],
     "shards": (2, 16),
     "workers": (4, 16),
     "rule": "One evaluation = one (table, question) decision, looked up in every drawn order of the table. "
